@@ -7,7 +7,7 @@ there; removed afterwards), so /repo is not touched at all."""
 import json, os, re, subprocess, sys
 VERIF = os.path.dirname(os.path.dirname(os.path.abspath(__file__)))
 REPO = os.environ.get("VERIF_REPO", "/repo")
-RELATED = {"C01": ["C09"], "C10": ["C07"], "C09": ["C01"], "C20": [], "C03": ["C09"], "C02": ["C11"], "C11": ["C02"], "C04": ["C18"], "C16": [], "C14": ["C01"]}
+RELATED = {"C01": ["C09"], "C10": ["C07"], "C09": ["C01"], "C20": [], "C03": ["C09"], "C07": ["C11"], "C02": ["C11", "C03"], "C11": ["C02"], "C04": ["C18"], "C16": [], "C14": ["C01"]}
 claimed = {c["property_id"] for c in json.load(open(os.path.join(VERIF, "MANIFEST.json")))["checks"]}
 args = sys.argv[1:]
 NSCRATCH = 0
